@@ -81,6 +81,12 @@ class ByteChanSpec(Spec):
     ]
     fault_kinds = F.ALL_KINDS
     p_control = 0.10
+    # single-fault enumeration arm ("crash-point sweep"): a run of this kind
+    # applies EVERY truncation point / EVERY single-bit flip / EVERY one-byte
+    # deletion of (a window of) one sampled workload, one fault at a time.
+    # (probability of a truncation sweep, of a flip/deletion sweep, window bytes)
+    sweep_quick = (0.002, 0.0006, 48)
+    sweep_thorough = (0.006, 0.003, 256)
 
     def setup(self, verif_seed, tier):
         R.use_real_levels()
@@ -162,6 +168,19 @@ class ByteChanSpec(Spec):
             case["faults"] = []
             return case
         r = rng.random()
+        p_tr, p_fl, win = self.sweep_thorough if tier == "thorough" else self.sweep_quick
+        if "raw" not in case and len(data) > 0 and r < p_tr + p_fl:
+            case["faults"] = []
+            if r < p_tr:
+                # every truncation point of a window of 4*win positions (the
+                # whole stream when it is shorter), ends included
+                lo = rng.randrange(max(1, len(data) - 4 * win + 1))
+                case["sweep"] = {"k": "trunc", "lo": lo, "hi": min(len(data), lo + 4 * win)}
+            else:
+                lo = rng.randrange(max(1, len(data) - win + 1))
+                case["sweep"] = {"k": rng.choice(["flip", "flip", "del"]), "lo": lo, "hi": min(len(data), lo + win)}
+            return case
+        r = rng.random()
         if r < self.p_control:
             nf = 0
         elif r < 0.50:
@@ -178,8 +197,65 @@ class ByteChanSpec(Spec):
         case["faults"] = F.gen_faults(rng, fmap, len(data), nf, enabled)
         return case
 
+    # ---- single-fault enumeration
+    @staticmethod
+    def sweep_faults(sw):
+        if sw["k"] == "trunc":
+            return [{"k": "trunc", "at": a, "kind": "trunc"} for a in range(sw["lo"], sw["hi"])]
+        if sw["k"] == "del":
+            return [{"k": "del", "at": a, "n": 1, "kind": "del"} for a in range(sw["lo"], sw["hi"])]
+        return [{"k": "flip", "bit": b, "kind": "flip"} for b in range(sw["lo"] * 8, sw["hi"] * 8)]
+
+    def execute_sweep(self, case):
+        base = {k: v for k, v in case.items() if k != "sweep"}
+        sw = case["sweep"]
+        stats = Counter()
+        digests = []
+        ticks = 0
+        judged = 0
+        first = None
+        for f in self.sweep_faults(sw):
+            out = self.execute(dict(base, faults=[f]))
+            for k, v in out.stats.items():
+                stats[k] += v
+            ticks += out.ticks
+            digests.append(out.digest)
+            if out.status != DISCARD:
+                judged += 1
+            if out.status == VIOLATION and first is None:
+                first = (f, out)
+        stats["sweep:%s" % sw["k"]] += 1
+        stats["sweep:%s:single-fault-executions" % sw["k"]] += len(digests)
+        events = [("sweep", sw["k"], sw["lo"], sw["hi"], digests)]
+        key = "%s|sweep:%s" % (cfg_class(case.get("cfg") or case.get("tc") or case.get("hist")), sw["k"])
+        if first is not None:
+            f, out = first
+            return Outcome(VIOLATION, events, sig=out.sig, detail="(single-fault sweep, first failing fault %r)\n%s" % (f, out.detail), stats=stats, nontrivial=True, key=key, ticks=ticks)
+        if not judged:
+            return Outcome(DISCARD, events, stats=stats, ticks=ticks)
+        return Outcome(OK, events, stats=stats, nontrivial=True, key=key, ticks=ticks)
+
+    def explicate(self, case):
+        """A sweep case is replaced by its first violating single-fault case
+        (so that the replay file holds the explicit fault)."""
+        if "sweep" not in case:
+            return case
+        base = {k: v for k, v in case.items() if k != "sweep"}
+        for f in self.sweep_faults(case["sweep"]):
+            sub = dict(base, faults=[f])
+            if self.guarded_execute(sub).status == VIOLATION:
+                return sub
+        return case
+
     # ---- shrinking
     def shrink(self, case):
+        if "sweep" in case:
+            # the enumeration's own single-fault cases, in order: the minimiser
+            # keeps the first one that reproduces the violation
+            base = {k: v for k, v in case.items() if k != "sweep"}
+            for f in self.sweep_faults(case["sweep"]):
+                yield dict(base, faults=[f])
+            return
         for fl in shrink_list(case["faults"]):
             d = dict(case)
             d["faults"] = fl
@@ -198,6 +274,8 @@ class ByteChanSpec(Spec):
 
     # ---- execution scaffolding
     def execute(self, case):
+        if "sweep" in case:
+            return self.execute_sweep(case)
         events = [("case", repr(sorted(case.get("cfg", {}).items())), case.get("raw"), case.get("tc"), repr(case.get("hist")), repr(case["faults"]))]
         stats = Counter()
         try:
